@@ -5,10 +5,12 @@ import (
 	"io"
 	"net"
 	"sync"
+	"sync/atomic"
 
 	"github.com/zishang520/engine.io-go-parser/packet"
 	"github.com/zishang520/engine.io/v2/log"
 	"github.com/zishang520/engine.io/v2/types"
+	"github.com/zishang520/engine.io/v2/utils"
 	"github.com/zishang520/engine.io/v2/verifhook"
 	"github.com/zishang520/engine.io/v2/webtransport"
 )
@@ -22,6 +24,9 @@ type webTransport struct {
 
 	session *types.WebTransportConn
 	mu      sync.Mutex
+	// batches handed to Send that their writer goroutine has not written yet
+	inflight      atomic.Int32
+	closeWhenIdle atomic.Bool
 }
 
 // WebTransport transport
@@ -120,6 +125,7 @@ func (w *webTransport) onMessage(data types.BufferInterface) {
 // Writes a packet payload.
 func (w *webTransport) Send(packets []*packet.Packet) {
 	w.SetWritable(false)
+	w.inflight.Add(1)
 	go w.send(packets)
 }
 func (w *webTransport) send(packets []*packet.Packet) {
@@ -132,6 +138,12 @@ func (w *webTransport) send(packets []*packet.Packet) {
 
 	w.mu.Lock()
 	defer w.mu.Unlock()
+	// the batch is out (or failed): a close that waited for it may go on
+	defer func() {
+		if w.inflight.Add(-1) == 0 && w.closeWhenIdle.Load() {
+			w.session.CloseWithError(0, "")
+		}
+	}()
 
 	for _, packet := range packets {
 		// always creates a new object since ws modifies it
@@ -227,7 +239,15 @@ func (w *webTransport) write(data types.BufferInterface, _ bool) {
 // Closes the transport.
 func (w *webTransport) DoClose(fn types.Callable) {
 	wt_log.Debug(`closing WebTransport session`)
-	defer w.session.CloseWithError(0, "")
+	// see websocket.DoClose: a batch still in flight goes out before the session is closed
+	defer func() {
+		w.closeWhenIdle.Store(true)
+		if w.inflight.Load() == 0 || w.Discarded() {
+			w.session.CloseWithError(0, "")
+		} else {
+			utils.SetTimeout(func() { w.session.CloseWithError(0, "") }, streamCloseTimeout)
+		}
+	}()
 	if fn != nil {
 		fn()
 	}
